@@ -12,7 +12,7 @@ TRUSTED_BASE = [
     "Lean 4.33 kernel; axioms propext, Classical.choice, Quot.sound only",
     "Model/Serde.lean: hand-written model of variable.rs's Serializer and Deserializer-for-Variable against serde's standard and "
     "derive-generated visitors, tied to the code by the `serde` stream of this run (a dynamic `impl Serialize` hits every serializer "
-    "entry point; 35 concrete derive(Deserialize) types are decoded by the library and by serde_json from the same data)",
+    "entry point; 36 concrete derive(Deserialize) types are decoded by the library and by serde_json from the same data)",
     "serde, serde_derive and serde_json are external: `svToJson` / `deJson` are the *specification* (what serde_json does), modelled and "
     "validated by the same stream (real serde_json::to_value / from_value run next to the library on every case), not verified",
 ]
@@ -20,7 +20,7 @@ ASSUMPTIONS = TRUSTED_BASE
 RULE = ("`ser`: random values of the serde data model (all 29 serializer entry points: integers of every width at their extremes, f32/f64 incl. "
         "non-finite, char, bytes, options, unit forms, the four enum variant shapes, seq/tuple/tuple struct, string-keyed maps (str and char "
         "keys), structs; nested to depth 4) plus a minority with non-string map keys (outside the property: only model agreement is checked); "
-        "`de`: for each of 35 concrete Rust types a conforming value and mutations of it (wrong kinds, missing / extra elements and fields, "
+        "`de`: for each of 36 concrete Rust types a conforming value and mutations of it (wrong kinds, missing / extra elements and fields, "
         "out-of-range and fractional numbers, unknown / malformed variants). Non-trivial = distinct case whose serde_json side succeeds.")
 
 INTW = [("i8", -128, 127), ("i16", -2 ** 15, 2 ** 15 - 1), ("i32", -2 ** 31, 2 ** 31 - 1), ("i64", -2 ** 63, 2 ** 63 - 1),
@@ -141,7 +141,7 @@ TYPES = [("bool",), I(True, 8), I(True, 16), I(True, 32), I(True, 64), I(False, 
          N, T2, ("ustruct",), E, ("option", E), ("seq", E), ("map", ("seq", T2)), ("option", ("unit",)),
          ("tuple", [I(True, 32)]), ("seq", ("tuple", [("string",), ("bool",)])),
          ("struct", [("e", E), ("n", N), ("u", ("ustruct",)), ("o", ("option", P))]),
-         F, ("seq", F)]
+         F, ("seq", F), ("map", I(True, 32))]
 
 
 def conforming(rng, sh, extras=True):
